@@ -1605,6 +1605,32 @@ func (x *c10) withOnly() {
 			defer func() {
 				_ = matchAdded
 			}()
+			// a way out that does not go through the scan is right only where nothing can match: for a nil argument (the
+			// list holds channels made by Sub/SubBuf, never nil) - and then the clone has no subscribers
+			for _, p := range ps {
+				if p.End != EndReturn {
+					continue
+				}
+				if _, through := p.LoopAt[it.li.Hdr]; through {
+					continue
+				}
+				subNil := false
+				for _, cd := range p.Conds {
+					r := cd.Rel()
+					if r.B != nil && r.Op == "==" && (r.A.Key() == sub.Key() && r.B.IsNil() || r.B.Key() == sub.Key() && r.A.IsNil()) {
+						subNil = true
+					}
+				}
+				if !subNil {
+					ok, why = false, "a path ("+p.CondString()+") returns without scanning the subscriber list although the argument may be subscribed"
+				}
+				for i := range p.Events {
+					e := &p.Events[i]
+					if e.Kind == "store" && isFieldAddr(e.Addr, x.fSubs, nil) && !e.Val.IsNil() {
+						ok, why = false, "a path that does not scan the list gives the clone subscribers"
+					}
+				}
+			}
 			for _, p := range it.li.Back {
 				eq := ""
 				for _, cd := range p.Conds {
